@@ -224,6 +224,13 @@ func (l *Lexer) readDigit(tok *token.Token) {
 
 func (l *Lexer) readFloat(hasReadExponentAlready bool, tok *token.Token) {
 
+	if hasReadExponentAlready {
+		// ExponentPart :: ExponentIndicator Sign? Digit+ (e.g. 1e-5, 1E+5)
+		if sign := l.peekRune(false); sign == runes.SUB || sign == runes.ADD {
+			l.readRune()
+		}
+	}
+
 	var r byte
 	for {
 		r = l.peekRune(false)
